@@ -94,7 +94,10 @@ def run_unit(unit, workdir, rlimit, extra_args=()):
             res['funcs'][fb['function']] = dict(ms=fb.get('time', 0), rlimit=fb.get('rlimit', 0), success=fb.get('success', False), mode=fb.get('mode:', ''))
     # diagnostics
     fn_ranges = [(f['gen_lines'][0], f['gen_lines'][1], f) for f in g.report['functions']]
-    ledger_by_line = {e['tmpl_line']: e for e in g.ledger}
+    ledger_by_line = {}
+    for e in g.ledger:
+        for tl in e.get('tmpl_lines', [e['tmpl_line']]):
+            ledger_by_line[tl] = e
 
     def fn_at(line):
         for a, b, f in fn_ranges:
@@ -137,14 +140,15 @@ def run_unit(unit, workdir, rlimit, extra_args=()):
         f = fn_at(pl)
         clause = None
         src_loc = None
-        for s in spans:
-            o = org(s['line_start'])
-            if not o:
-                continue
-            if o[0] == 'ann' and len(o) > 3 and o[3] in ledger_by_line and clause is None:
-                clause = ledger_by_line[o[3]]
-            if o[0] == 'src' and src_loc is None:
-                src_loc = '%s:%d' % (o[1], o[2])
+        for s in sorted(spans, key=lambda x: not x.get('is_primary')):
+            for ln_ in range(s['line_start'], min(s['line_end'], s['line_start'] + 40) + 1):
+                o = org(ln_)
+                if not o:
+                    continue
+                if o[0] == 'ann' and len(o) > 3 and o[3] in ledger_by_line and clause is None:
+                    clause = ledger_by_line[o[3]]
+                if o[0] == 'src' and src_loc is None and ln_ == s['line_start']:
+                    src_loc = '%s:%d' % (o[1], o[2])
             if f is None:
                 f = fn_at(s['line_start'])
         # a failing clause that lives in template-only text (lemma / spec) is a machinery problem
@@ -171,6 +175,8 @@ def run_unit(unit, workdir, rlimit, extra_args=()):
             label = fname + '.safety'
             props = f['props'] if f else []
             ctext = msg
+        if src_loc is None and f is not None:
+            src_loc = '%s:%d (function %s)' % (f['file'], f['src_lines'][0], fname)
         rec.update(dict(fn=fname, label=label, props=props, clause=ctext, repo_loc=src_loc))
         rec['class'] = 'failed'
         res['failures'].append(rec)
